@@ -21,7 +21,7 @@ RULE = ('payload {link->outside file abs/rel, link->outside dir abs/rel, danglin
 PAYLOADS = ['lf-abs', 'lf-rel', 'ld-abs', 'ld-rel', 'dang', 'tree1', 'tree2', 'tree3', 'tree000', 'file']
 NAMES = ['plain', 'dbl', 'newline']
 STRAYS = ['.trashinfo', '..trashinfo', '...trashinfo', 'old0.bak', 'zz']          # the last two: not info files at all, with names shorter than the suffix
-REACH = ['direct', 'xdg-link', 'alt-link', 'info-link', 'home-named-info', 'tdopt-dotdot']
+REACH = ['direct', 'xdg-link', 'alt-link', 'info-link', 'home-named-info', 'tdopt-dotdot', 'xdg-dotdot', 'tdopt-slash']
 CMDS = ['empty', 'empty0', 'rm-star', 'rm-exact', 'empty-v', 'empty0-v']
 
 
@@ -31,10 +31,10 @@ def dimensions(tier):
 
 def cases(tier):
     out = [{'pl': p, 'nm': n, 'reach': r, 'cmd': c, 'orphan': o} for o in (0, 1) for c in CMDS for r in REACH for n in NAMES for p in PAYLOADS
-           if not (r == 'tdopt-dotdot' and c.startswith('rm'))]          # trash-rm has no --trash-dir option
+           if not (r in ('tdopt-dotdot', 'tdopt-slash') and c.startswith('rm'))]          # trash-rm has no --trash-dir option
     # an info file whose name is nothing but the suffix, or '.' / '..' + suffix: its "payload" would be files/, files/. or files/.. (the trash directory)
     out += [{'pl': p, 'nm': 'plain', 'reach': r, 'cmd': c, 'orphan': 0, 'stray': st} for st in STRAYS for c in CMDS for r in REACH for p in ('file', 'tree1', 'ld-abs')
-            if not (r == 'tdopt-dotdot' and c.startswith('rm'))]
+            if not (r in ('tdopt-dotdot', 'tdopt-slash') and c.startswith('rm'))]
     # the same as an unprivileged user (the code may take other branches when geteuid() != 0; the cell still runs as root)
     out += [{'pl': p, 'nm': 'plain', 'reach': r, 'cmd': c, 'orphan': 1, 'uid': 1000} for c in ('empty', 'empty0', 'rm-star', 'empty-v') for r in ('direct', 'xdg-link')
             for p in PAYLOADS]
@@ -109,6 +109,20 @@ def run_case(c):
     elif c['reach'] == 'info-link':
         td = phys = scen.HOME_TRASH
         rel = False
+    elif c['reach'] == 'xdg-dotdot':
+        # XDG_DATA_HOME=/home/u/cfg/../data with cfg -> /home/store/deep/cfg: the kernel means /home/store/deep/data, a lexical collapse means /home/u/data (a look-alike)
+        W.dir('/home/store/deep/cfg').link('/home/u/cfg', '/home/store/deep/cfg')
+        env['XDG_DATA_HOME'] = '/home/u/cfg/../data'
+        td, phys = '/home/u/cfg/../data/Trash', '/home/store/deep/data/Trash'
+        rel = False
+        W.dir('/home/u/data/Trash/files').dir('/home/u/data/Trash/info').file('/home/u/data/Trash/files/victim', 'look-alike, nobody named this directory\n')
+        W.file('/home/u/data/Trash/info/victim.trashinfo', '[Trash Info]\nPath=/home/u/w/lookalike\nDeletionDate=2001-01-01T00:00:00\n')
+    elif c['reach'] == 'tdopt-slash':
+        # --trash-dir /mnt/v1/old/ (trailing slash) run from /snap, which holds a copy of the same layout below itself (a backup snapshot)
+        td = phys = '/mnt/v1/old'
+        rel = False
+        W.dir('/snap/mnt/v1/old/files').dir('/snap/mnt/v1/old/info').file('/snap/mnt/v1/old/files/victim', 'snapshot copy: not the directory that was named\n')
+        W.file('/snap/mnt/v1/old/info/victim.trashinfo', '[Trash Info]\nPath=/home/u/w/snap\nDeletionDate=2001-01-01T00:00:00\n')
     elif c['reach'] == 'tdopt-dotdot':
         # --trash-dir LINK/../old : the kernel resolves LINK first (-> /mnt/v1/old); a lexical collapse would name /home/u/old, a look-alike that is NOT operated on
         td = phys = '/mnt/v1/old'
@@ -148,10 +162,12 @@ def run_case(c):
             'empty-v': ['trash-empty', '-v'], 'empty0-v': ['trash-empty', '-v', '0']}[c['cmd']]
     if c['reach'] == 'tdopt-dotdot':
         argv = argv + ['--trash-dir', '/home/u/usb/../old']
+    if c['reach'] == 'tdopt-slash':
+        argv = argv + ['--trash-dir', '/mnt/v1/old/']
     with cell.Sandbox(W.spec()) as sb:
         before = sb.snapshot()
         flts = c.get('faults') or []
-        r = sb.run(argv, env=env, cwd='/', now='2024-05-06T07:08:09', plan={'resolve': 'all', 'faults': flts} if flts else {'resolve': 'all'})
+        r = sb.run(argv, env=env, cwd='/snap' if c['reach'] == 'tdopt-slash' else '/', now='2024-05-06T07:08:09', plan={'resolve': 'all', 'faults': flts} if flts else {'resolve': 'all'})
         after = sb.snapshot()
     zones = [phys + '/files', infodir]
     detail = {'argv': argv, 'exit': r.exit, 'err': r.err[-300:], 'trash': phys}
